@@ -1,4 +1,4 @@
-CONSTANTS N = 4  Byz = {4}  MaxView = 5  MaxBlocksPerView = 2  Ruleset = "chained"  LockRule = TRUE
-SPECIFICATION Spec
+CONSTANTS N = 4  Byz = {4}  MaxView = 7  MaxBlocksPerView = 2  Ruleset = "chained"  LockRule = TRUE  EquivViews = {4}
+SPECIFICATION SpecOrdered
 INVARIANT Agreement
 INVARIANT OneVotePerView
